@@ -1,6 +1,6 @@
 """C12 configuration for bin/check and bin/mkmanifest.py."""
 CFG = {
-   "ready": False,
+   "ready": True,
    "level_text": "Proof (with two refuted sub-claims recorded as findings): for every worker count n >= 1 and every size, the index ranges that each fork-join site of the codec hands to its goroutines (proportional row split of the lossy import, ceil-sized clipped chunks of the lossless predictor / cross-colour / histogram sites, floor split with remainder of the lossless decoder sites, hash-chain positions, computeAlphas rows with break) are pairwise disjoint, in bounds and cover the index space exactly (Coq theorems C12_partition_exact_*), and a fork-join over such a partition equals the serial loop under every interleaving (C12_map_/inplace_/sum_site_independent). The claim that the ALGORITHM chosen never depends on the CPU count is refuted for the pinned tree at two sites (C12_algorithm_choice_*_refuted: lossy EncodeFrame.useParallel, lossless hashchain.Fill); the check reproduces both on the real code and reports them as known findings. The model is tied to the code on every run by the translator (list of every GOMAXPROCS read / go statement / hook = modelled sites), by comparing the ranges logged by the hooks with the extracted formulas, and by per-site and whole-process differential runs.",
    "level_note": "Trusted: Coq kernel, extraction, OCaml glue, Go harness, translator, the verifhook override (a forced worker count stands for GOMAXPROCS at that site; its faithfulness is itself checked against child processes). The per-item functions are abstract (their 'reads only inputs' frame condition is what the differential runs probe); serial-vs-worker bodies of computeAlphas and the equality of the serial and row-parallel lossy encoders are outside the model.",
    "technique": "Rocq proofs of exact-partition and fork-join determinism lemmas over executable partition models; translator-regenerated site list obligations; extraction-based correspondence on logged ranges; per-site worker-count override differential + child processes with different GOMAXPROCS",
